@@ -3,7 +3,7 @@ from vlib import *
 import gen_vi
 from props import vilib
 
-PROP = "C19"; MODULES = ["NeatviVerif.Props.C19"]; MODE = "vi19"
+PROP = "C19"; MODULES = ["NeatviVerif.Props.C19", "NeatviVerif.Props.C19b"]; MODE = "vi19"
 
 def streams(probe, tier, seed, wide):
     rng = Rng(seed)
